@@ -250,6 +250,12 @@ def _mirsym():
         ["stringpack::PackedBytes::from_iterator", "stringpack::<impl Iterator for PackedBytesIterator>::next"],
         bounds="same length sets as C01.e/packed_strings", spec=ssp.PackedBytesSpec())
 
+    for pid, tag in (("C07", "C07.b"), ("C01", "C01.d")):
+        add(f"{tag}/decode_str", pid, "mirsym", Q,
+            "mem_store::column::decode on the string codec shapes the builder emits (dictionary coded with u8/u16/u32 indices, packed strings, lz4-compressed packed strings, hex-packed strings; each with and without a null map): every row's string and NULL flag survive, no panic",
+            ["mem_store::column::decode"], bounds="dictionary of 4 fixed strings, 2 (quick) / 3 or 9 (thorough) rows with symbolic indices and null map; packed strings of lengths (1,0,2), (2,1) (+ (254,255), () thorough) with symbolic first/last bytes; lz4 decode stubbed as 'section 0 decompresses to the packed bytes'",
+            spec=sd.DecodeStrSpec(), stubs=["Codec::ops -> shape's op list", "lz4::decoder / lz4::decode -> yields the plain packed bytes", "dyn Data -> tagged sequences"])
+
 
 _mirsym()
 
